@@ -240,8 +240,16 @@ def r15_3(ctx):
 
 def r15_4(ctx):
     ctx.rule("R15.4", "HTML escaping: every segment text appended to the HTML fragments first passes through escape(), whose replace chain handles '&' before '<' and '>'")
-    f = ctx.repo.fn("console:Console.export_html")
-    esc = f.module.functions.get("Console.export_html.<locals>.escape")
+    f0 = ctx.repo.fn("console:Console.export_html")
+    # a long export method split in two: the part that walks the record may live in a same-class helper
+    family = [f0]
+    for c_ in walk_local(f0.node):
+        if isinstance(c_, ast.Call) and isinstance(c_.func, ast.Attribute) and isinstance(c_.func.value, ast.Name) and c_.func.value.id == "self" and f0.cls is not None:
+            h_ = f0.cls.method(c_.func.attr)
+            if h_ is not None and h_ not in family and any("_record_buffer" in norm(x) for x in walk_local(h_.node) if isinstance(x, ast.Attribute)):
+                family.append(h_)
+    f = next((m_ for m_ in family if any(isinstance(n_, ast.For) and "_record_buffer" in norm(n_.iter) for n_ in walk_local(m_.node))), f0)
+    esc = f.module.functions.get(f"{f.qualname}.<locals>.escape")
     esc_names = {"escape"}
     if esc is None:
         # a module-level helper, possibly bound to a local alias (`escape = _escape_html`)
